@@ -3,11 +3,20 @@ import json, random
 import vlib, xfer_common as xc
 
 
+def claims_after(evs, pred):
+    """number of claims (snapshot, wire report, stats, resume data, completion) judged after the first event matching pred"""
+    for i, e in enumerate(evs):
+        if pred(e):
+            return sum(1 for x in evs[i:] if x["ev"] in ("snap", "rep", "stats", "resume", "complete"))
+    return 0
+
+
 def run(ctx):
     ctx.level = "model_checking"
-    ctx.cov["rule"] = ("download scenarios = layout class x peer/web-seed policy mix x timing (stop/start at a blocked piece write), run on a real "
-                       "leeching Session with recording storage; non-trivial = contains at least one adversarial peer/web seed or a timing action; "
-                       "distinct = distinct (layout, unit, policies, timing, mode) tuples")
+    ctx.cov["rule"] = ("download scenarios = layout class x peer/web-seed policy mix x start mode (.torrent / magnet, empty or pre-filled storage) x "
+                       "timing (stop/start at a blocked piece write; failed storage write then Start; damage + Verify + Start after completion), "
+                       "run on a real leeching Session with recording storage; non-trivial = contains at least one adversarial peer/web seed, "
+                       "pre-existing data or a timing/command action; distinct = distinct (layout, unit, policies, timing, mode, start mode) tuples")
     ctx.assumptions += ["SHA-1 collision free (ground truth is the only content classified good)",
                         "storage is the recording in-memory provider injected through Config.CustomStorage",
                         "peers/web seeds are scripted on loopback; time-based expectations (ban within 6 s) carry generous slack"]
@@ -17,24 +26,31 @@ def run(ctx):
         ctx.tlc_mc("MC_Transfer", "MC_Transfer_big.cfg", timeout=2400)
     drv = ctx.build_go("xfer")
     rng = random.Random(ctx.seed)
-    n = ctx.pick(140, 1600)
+    n = ctx.pick(175, 2000)
     scs = xc.gen_scenarios(rng, n, "c01")
+    scs += xc.gen_heavy(rng, ctx.pick(6, 45), len(scs) + 1, "c01")
     by_id = {s["id"]: s for s in scs}
-    raws, crashed = xc.run_scenarios(ctx, drv, scs, nproc=ctx.pick(8, 12))
+    raws, crashed = xc.run_scenarios(ctx, drv, scs, nproc=ctx.pick(8, 12), per_timeout=60)
     abstract = {}
     for rp in raws:
         abstract.update(xc.project(rp, {c["id"] for c in crashed}))
     for sid, evs in abstract.items():
         s = by_id[sid]
         key = (s["layout"], s["unit"], s.get("seq"), tuple((p["policy"], p.get("k"), p.get("have"), p.get("sole", False)) for p in s["peers"]),
-               tuple(w["policy"] for w in s.get("webseeds", [])), tuple(t["n"] for t in s.get("timing", [])))
-        nontrivial = any(p["policy"] != "honest" for p in s["peers"]) or any(w["policy"] != "honest" for w in s.get("webseeds", [])) or bool(s.get("timing"))
+               tuple(w["policy"] for w in s.get("webseeds", [])), tuple((t.get("do"), t["n"]) for t in s.get("timing", [])),
+               bool(s.get("magnet")), s.get("prefill"), s.get("after"))
+        nontrivial = any(p["policy"] != "honest" for p in s["peers"]) or any(w["policy"] != "honest" for w in s.get("webseeds", [])) or \
+            bool(s.get("timing") or s.get("prefill") or s.get("after"))
         ctx.count_case(key, nontrivial)
         ctx.oblig("C01.a(write)", sum(1 for e in evs if e["ev"] == "w"))
         ctx.oblig("C01.b(snap)", sum(1 for e in evs if e["ev"] == "snap"))
         ctx.oblig("C01.c(rep/stats/resume)", sum(1 for e in evs if e["ev"] in ("rep", "stats", "resume")))
         ctx.oblig("C01.d(complete)", sum(1 for e in evs if e["ev"] == "complete"))
         ctx.oblig("C01.e(ban)", sum(1 for e in evs if e["ev"] in ("expect", "redial")))
+        ctx.oblig("C01.b/c(after a failed write)", claims_after(evs, lambda e: e["ev"] == "w" and e["err"] and e["cls"] == "good"))
+        ctx.oblig("C01.b/c/d(after damage+verify)", claims_after(evs, lambda e: e["ev"] == "disk-mutate"))
+        if s.get("magnet"):
+            ctx.oblig("C01.b/c(magnet)", sum(1 for e in evs if e["ev"] in ("snap", "rep", "stats", "resume")))
     if abstract:
         first = sorted(abstract)[0]
         ctx.sample({"scenario": by_id[first], "abstract_trace_prefix": abstract[first][:15]})
@@ -44,8 +60,9 @@ def run(ctx):
     if len(abstract) < 0.8 * len(scs):
         raise vlib.MachineryError("only %d of %d scenarios produced a complete trace (crashed: %d) — not enough to claim the property held"
                                   % (len(abstract), len(scs), len(crashed)))
-    for tag in ("C01.a(write)", "C01.b(snap)", "C01.c(rep/stats/resume)", "C01.d(complete)", "C01.e(ban)"):
+    for tag in ("C01.a(write)", "C01.b(snap)", "C01.c(rep/stats/resume)", "C01.d(complete)", "C01.e(ban)", "C01.b/c(after a failed write)",
+                "C01.b/c/d(after damage+verify)", "C01.b/c(magnet)"):
         if ctx.obligation_counts.get(tag, 0) == 0:
             raise vlib.MachineryError("obligation %s was never evaluated (vacuous run)" % tag)
-    foreign = xc.judge(ctx, abstract, by_id, ["C01."], "C10/C04")
+    foreign = xc.judge(ctx, abstract, by_id, ["C01."], "C10/C04", drv=drv)
     ctx.extra["foreign_tags"] = {k: len(v) for k, v in foreign.items()}
